@@ -1011,6 +1011,48 @@ var mapOrderTable = map[string]string{
 	"vm.New": "each iteration optimizes one function's bytecode (the machine's own bytecode is saved and restored around it) and inserts the result under the same name into a fresh map: iterations are independent and the loop runs to exhaustion (checked); the DEBUG trace line is printed per iteration in map order — diagnostic output, outside the property",
 }
 
+// rebuildsFunctionTable: the loop ranges over a table of user-defined functions
+// and stores every entry into another table of the same type under the key it
+// was found under — the listed loop of the optimizer, recognised by what it
+// does and not by the function its text is in.
+func rebuildsFunctionTable(info *types.Info, rs *ast.RangeStmt) bool {
+	tv, ok := info.Types[rs.X]
+	if !ok {
+		return false
+	}
+	mt, ok := tv.Type.Underlying().(*types.Map)
+	if !ok || !isNamed(mt.Elem(), "environment", "UserFunction") {
+		return false
+	}
+	keyID, ok := rs.Key.(*ast.Ident)
+	if !ok {
+		return false
+	}
+	keyObj := info.Defs[keyID]
+	found := false
+	ast.Inspect(rs.Body, func(n ast.Node) bool {
+		as, ok := n.(*ast.AssignStmt)
+		if !ok || len(as.Lhs) != 1 {
+			return true
+		}
+		ix, ok := as.Lhs[0].(*ast.IndexExpr)
+		if !ok {
+			return true
+		}
+		if t2, ok := info.Types[ix.X]; !ok || !types.Identical(t2.Type.Underlying(), tv.Type.Underlying()) {
+			return true
+		}
+		if exprStr(ix.X) == exprStr(rs.X) {
+			return true // the table it ranges over, not another one
+		}
+		if id, ok := ix.Index.(*ast.Ident); ok && info.Uses[id] == keyObj && keyObj != nil {
+			found = true
+		}
+		return true
+	})
+	return found
+}
+
 // earlyExit: a return, break or goto that leaves the range loop from inside
 // its body (function literals and inner loops' own breaks excluded).
 func earlyExit(rs *ast.RangeStmt) ast.Node {
@@ -1133,6 +1175,9 @@ func ruleMapOrder(p *Program, r *Reporter) {
 						r.OkNT(key, p.Pos(rs.Pos()), "listed: "+why)
 					} else if why, ok := mapOrderTable[fnName]; ok {
 						r.OkNT(key, p.Pos(rs.Pos()), "listed: "+why)
+					} else if rebuildsFunctionTable(info, rs) {
+						// the same loop, wherever its text sits
+						r.OkNT(key, p.Pos(rs.Pos()), "listed: "+mapOrderTable["vm.New"])
 					} else {
 						r.Fail(key, p.Pos(rs.Pos()), "the body of this iteration over a Go map has effects that depend on the iteration order ("+detail+"); it neither only inserts into a map nor collects into a slice that is sorted before use")
 					}
